@@ -299,7 +299,23 @@ def gen_spec_c13(seed, run, tier):
                 cls, argv, bad = gen_missing_value(rng, cmd)
             else:
                 cls, argv, bad = gen_reject(rng, cmd)
-            cases.append({"kind": "reject", "cls": cls, "argv": argv, "bad": bad})
+            case = {"kind": "reject", "cls": cls, "argv": argv, "bad": bad}
+            if cls != "missing_value" and rng.random() < 0.3:
+                # the offending option arrives through a --config file
+                rest = []
+                i = 0
+                toks = list(argv)
+                while i < len(toks):
+                    if toks[i:i + len(bad)] == bad:
+                        i += len(bad)
+                        continue
+                    rest.append(toks[i])
+                    i += 1
+                pos = rng.randint(0, len(rest))
+                case["argv"] = rest[:pos] + ["--config", "cfgbad.txt"] + rest[pos:]
+                case["configs"] = {"cfgbad.txt": rng.choice([" ", "\n"]).join(bad) + rng.choice(["", "\n"])}
+                case["via_config"] = True
+            cases.append(case)
         else:
             cmd2 = {"files": cmd["files"], "groups": [g for g in cmd["groups"] if g[0] != "-f"]}
             cases.append({"kind": "fault", "argv": plain(cmd2), "fault": gen_file_fault(frng, world, cmd2)})
